@@ -7,6 +7,8 @@ final times/statuses, and the bounded-progress restatement of termination (logic
 import math
 import re
 
+import numpy as np
+
 import finam as fm
 
 from .. import gen_coupling, harness, sched_run
@@ -103,6 +105,11 @@ class C03(Property):
     min_nontrivial = {"quick": 350, "thorough": 20000}
 
     def gen(self, rnd, i, tier):
+        if i % 40 == 19:
+            # parameter provider with static outputs feeding static and non-static inputs through 0-2 adapters each
+            return dict(static_links=[dict(static_in=rnd.random() < 0.6, chain=rnd.randint(0, 2)) for _ in range(rnd.randint(1, 3))],
+                        gen_step=rnd.choice([1, 2, 3]), cons_step=rnd.choice([1, 2, 5]), end=rnd.choice([0, 4, 7.5, 12]),
+                        order=rnd.sample(range(3), 3), shared_output=rnd.random() < 0.5)
         if i % 40 == 39:
             # composition without time components: pull-based component only
             return dict(comps=[dict(name="p0", type="pull", nin=0, nout=1, eager=True, info="target")], links=[], order=[0], link_order=[],
@@ -137,6 +144,8 @@ class C03(Property):
         out.sample = spec
         if spec.get("finisher") is not None:
             return self._run_finisher(out, spec)
+        if spec.get("static_links") is not None:
+            return self._run_static(out, spec)
         if spec["end"] is None:
             return self._run_no_time(out, spec)
         rep = sched_run.run_spec(spec, check_model=False)
@@ -213,6 +222,143 @@ class C03(Property):
                 out.viol("lifecycle_order", f"{c.name}: {''.join(c.calls)} / {c.status}", spec=spec)
         return out
 
+    def _run_static(self, out, spec):
+        """static slots: life cycles, adapters on static links finalized exactly once"""
+        import logging
+
+        from ..record import REC, install
+
+        T0, H = harness.T0, harness.H
+        links = spec["static_links"]
+        calls = {"P": [], "G": [], "C": []}
+        got = {}
+
+        class Params(fm.Component):
+            def _initialize(self):
+                calls["P"].append("I")
+                for k in range(1 if spec["shared_output"] else len(links)):
+                    self.outputs.add(name=f"par{k}", static=True, time=None, grid=fm.NoGrid(), units="m")
+                self.create_connector()
+
+            def _connect(self, st):
+                calls["P"].append("C")
+                self.try_connect(st, push_data={n: 21.0 + k for k, n in enumerate(self.outputs.names)})
+
+            def _validate(self):
+                calls["P"].append("V")
+
+            def _update(self):
+                calls["P"].append("U")
+
+            def _finalize(self):
+                calls["P"].append("F")
+
+        class Gen(fm.TimeComponent):
+            def __init__(self):
+                super().__init__()
+                self._time = T0
+
+            def _next_time(self):
+                return self.time + H(spec["gen_step"])
+
+            def _initialize(self):
+                calls["G"].append("I")
+                self.outputs.add(name="out", time=self.time, grid=fm.NoGrid(), units="m")
+                self.create_connector()
+
+            def _connect(self, st):
+                calls["G"].append("C")
+                self.try_connect(st, push_data={"out": 0.0})
+
+            def _validate(self):
+                calls["G"].append("V")
+
+            def _update(self):
+                calls["G"].append("U")
+                self._time = self._next_time()
+                self.outputs["out"].push_data(harness.hrs(self.time), self.time)
+
+            def _finalize(self):
+                calls["G"].append("F")
+
+        class Cons(fm.TimeComponent):
+            def __init__(self):
+                super().__init__()
+                self._time = T0
+
+            def _next_time(self):
+                return self.time + H(spec["cons_step"])
+
+            def _initialize(self):
+                calls["C"].append("I")
+                for k, ln in enumerate(links):
+                    self.inputs.add(name=f"p{k}", static=ln["static_in"], time=None if ln["static_in"] else self.time, grid=fm.NoGrid(), units="m")
+                self.inputs.add(name="in", time=self.time, grid=fm.NoGrid(), units="m")
+                self.create_connector(pull_data=list(self.inputs.names))
+
+            def _connect(self, st):
+                calls["C"].append("C")
+                self.try_connect(st)
+
+            def _validate(self):
+                calls["C"].append("V")
+
+            def _update(self):
+                calls["C"].append("U")
+                self._time = self._next_time()
+                for k in range(len(links)):
+                    got.setdefault(k, []).append(float(np.asarray(self.inputs[f"p{k}"].pull_data(self.time).magnitude).ravel()[0]))
+                self.inputs["in"].pull_data(self.time)
+
+            def _finalize(self):
+                calls["C"].append("F")
+
+        comps = [Params(), Gen(), Cons()]
+        composition = fm.Composition([comps[i] for i in spec["order"]], print_log=False, log_level=logging.CRITICAL + 10)
+        adas = []
+        for k, ln in enumerate(links):
+            x = comps[0].outputs["par0" if spec["shared_output"] else f"par{k}"]
+            for _ in range(ln["chain"]):
+                a = fm.adapters.Scale(2.0)
+                adas.append(a)
+                x = x >> a
+            x >> comps[2].inputs[f"p{k}"]
+        tail = fm.adapters.Scale(1.0)
+        adas.append(tail)
+        comps[1].outputs["out"] >> tail >> comps[2].inputs["in"]
+        install()
+        REC.reset()
+        fin = {}
+        REC.on("ada_finalize", lambda a: fin.__setitem__(id(a), fin.get(id(a), 0) + 1))
+        try:
+            composition.run(start_time=T0, end_time=T0 + H(spec["end"]))
+        except Exception as e:  # pylint: disable=broad-except
+            out.viol("run_did_not_return", f"composition with static links raised {type(e).__name__}: {str(e)[:200]}", spec=spec)
+            return out
+        finally:
+            REC.reset()
+        out.count("compositions_with_static_links")
+        for name, c in zip("PGC", comps):
+            seq = "".join(calls[name])
+            out.count("lifecycles_checked")
+            if not LIFECYCLE.match(seq) or c.status != fm.ComponentStatus.FINALIZED:
+                out.viol("lifecycle_order", f"{name}: callback sequence {seq[:60]!r} / final state {c.status}", spec=spec)
+        for j, a in enumerate(adas):
+            out.count("adapter_finalize_checked")
+            out.count("static_link_adapters_checked" if j < len(adas) - 1 else "adapter_finalize_checked", 1 if j < len(adas) - 1 else 0)
+            if fin.get(id(a), 0) != 1:
+                out.viol("adapter_finalize_count", f"adapter {j} of {len(adas)} (links: {links}) finalized {fin.get(id(a), 0)} times", spec=spec)
+        for k, ln in enumerate(links):
+            want = (21.0 + (0 if spec["shared_output"] else k)) * 2.0 ** ln["chain"]
+            if any(abs(v - want) > 1e-9 for v in got.get(k, [])):
+                out.viol("static_value", f"static parameter {k} delivered {got[k][:3]} expected {want}", spec=spec)
+        for t in (comps[1].time, comps[2].time):
+            if t < T0 + H(spec["end"]):
+                out.viol("end_not_reached", f"a component ended at {t}", spec=spec)
+        if any(ln["chain"] and ln["static_in"] for ln in links):
+            out.key = "static:" + repr((links, spec["gen_step"], spec["cons_step"], spec["end"], spec["order"], spec["shared_output"]))
+        return out
+
     def _run_finisher(self, out, spec):
         import logging
 
@@ -229,7 +375,7 @@ class C03(Property):
 
     def coverage_gaps(self, counters, tier):
         need = ["updates_observed", "lifecycles_checked", "adapter_finalize_checked", "end_equals_start_runs", "runs_with_never_updated_component",
-                "compositions_without_time_components", "runs_after_a_refused_first_attempt"] + ["end_mode_" + m for m in ("on", "before", "after", "start", "late_start", "far")]
+                "compositions_without_time_components", "runs_after_a_refused_first_attempt", "compositions_with_static_links", "static_link_adapters_checked"] + ["end_mode_" + m for m in ("on", "before", "after", "start", "late_start", "far")]
         gaps = [f"{k} never observed" for k in need if not counters.get(k)]
         if counters.get("aborted_runs", 0) > 0.05 * max(1, counters.get("compositions", 0)):
             gaps.append(f"{counters.get('aborted_runs')} of {counters.get('compositions')} runs aborted for reasons outside this property")
